@@ -165,6 +165,26 @@ CHECKS = {
         design_ref="5/C12"),
 }
 
+# additions of the sixth seeding round (2026-09-28), appended to the texts above
+EXTRA = {
+    "C02": " One grid of the quick tier (six of the thorough tier) has more than 2^10 (up to 2^12) position cells, so size-dependent branches "
+           "are reached; a fifth of the cases assign the public factor attribute after construction.",
+    "C05": " Radial grids with 7..70 shells on small direction grids are part of every shard; same-shell faces are judged at 1e-10 relative plus "
+           "an absolute arc accuracy of 1e-11.",
+    "C07": " The predicate q_in_upper_sphere (behind get_upper_indices, the Voronoi half selection and the polytope half) is itself monitored "
+           "(first non-zero coordinate positive) on hostile vectors and on every call the grids make.",
+    "C10": " A third of the generated gro/pdb molecules consist of two residues / two chains (segments).",
+    "C12": " The model's input is the trajectory handed to the MSM constructor (recorded there), not what the object kept of it.",
+    "C16": " Negative distances are driven through lists, linspace (either end point) and range/arange (negative start, or a descending range "
+           "running through the origin); the same array is requested through ascending and descending forms, also starting at the origin.",
+}
+for _k, _v in EXTRA.items():
+    CHECKS[_k]["text"] += _v
+COMMON_NOTE_STATES = (" Every worker process runs in one of three process states (default; numpy print options changed; python -O with the "
+                      "package's assert statements stripped), recorded per case in the evidence.")
+for _c in CHECKS.values():
+    _c["note"] = _c.get("note", COMMON_NOTE) + COMMON_NOTE_STATES
+
 NOT_BUILT_REASON = "check not built yet in this round (planned, see DESIGN.md section 5)"
 
 
